@@ -5,7 +5,7 @@ from verif.core import Infra
 META = dict(
     technique="TLC exhaustive model check of PipeConns.tla (channel of 4 buffers + partial buffer per direction, multi-step Read interleaved with the other end) and InmemListener.tla (2 Dial x 2 Accept x 1-2 Close calls at the code's step granularity, safety + termination); TLC-generated PipeConns behaviours replayed on real PipeConns (B1); start/end events of concurrent Dial/Accept/Close calls on a real InmemoryListener validated by TLC with silent internal steps (B2); direct stream check under two goroutines per direction",
     design_ref="DESIGN.md §4 C33",
-    text="PipeConnsGen makes TLC visit every distinct pipe state within MaxOps calls and try every call of the menu (Write/Read of sizes {0,(1),3,2000} on either end, with and without a fired deadline, Close) from it; each transition is printed as a behaviour with the (n, allowed errors, stream offset) of every call and replayed on a real PipeConns, comparing every result and every byte (a call the spec lets return must return). InmemListener is model-checked exhaustively (pairing, uniqueness, nothing succeeds after Close returned, refused connections are closed, termination) and bound by validating the public-API call log of concurrent executions against it (TLC searches the unlogged internal steps), plus peer checks by passing bytes.",
+    text="PipeConnsGen makes TLC visit every distinct pipe state within MaxOps calls and try every call of the menu (Write/Read of sizes {0,(1),3,2000} and, shallower, {3, 65536, 65537, 5 MiB} on either end, with and without a fired deadline, Close) from it; each transition is printed as a behaviour with the (n, allowed errors, stream offset) of every call and replayed on a real PipeConns, comparing every result and every byte (a call the spec lets return must return; the written buffer is overwritten as soon as Write returns; after the last call both ends are drained and the bytes delivered must equal the bytes the Write calls acknowledged -- AckInv). InmemListener is model-checked exhaustively (pairing, uniqueness, nothing succeeds after Close returned, refused connections are closed, termination) and bound by validating the public-API call log of concurrent executions against it (TLC searches the unlogged internal steps), plus peer checks by passing bytes.",
     note="Trusted: position-determined byte pattern detects loss/duplication/reordering; log lines are written before a call starts and after it returns (interval containment); the two-goroutines-per-direction stream stress is a direct harness check, not validated by TLC. Thorough tier adds seeded simulation behaviours (depth 14) and larger constants.",
 )
 
@@ -43,20 +43,28 @@ def selftest_listener_trace(ctx, tf):
 
 def run(ctx):
     # ---- model checking
-    ctx.tlc_mc("util", "PipeConnsMC", "PipeConnsMC.cfg", consts={"OPS": ctx.pick(3, 5), "MCSIZES": ctx.pick("{0, 3, 2000}", "{0, 1, 3, 2000}")}, workers=4, timeout=1500)
+    small = ctx.pick("{0, 3, 2000}", "{0, 1, 3, 2000}")
+    ctx.tlc_mc("util", "PipeConnsMC", "PipeConnsMC.cfg", workers=4, timeout=1500,
+               consts={"OPS": ctx.pick(3, 5), "MCWSIZES": small, "MCRSIZES": small})
     for closers, cap in ctx.pick([("{1}", 1)], [("{1}", 1), ("{1}", 2), ("{1, 2}", 1)]):
         ctx.tlc_mc("util", "InmemListener", "InmemListenerMC.cfg", consts={"CLOSERS": closers, "CAP": cap},
                    workers=4, timeout=1500)
-    # ---- B1 pipes
-    ops, sizes = ctx.pick((5, "{0, 3, 2000}"), (6, "{0, 1, 3, 2000}"))
-    _, beh = ctx.tlc_gen("util", "PipeConnsGen", "PipeConnsGen.cfg",
-                         consts={"OPS": ops, "SIZES": sizes, "PRINTALL": "TRUE"}, workers=4, timeout=1500)
-    if not beh:
+    # ---- B1 pipes: (a) small sizes, deep enough to fill the channel; (b) size classes around 64 KiB and a
+    # write larger than anything the channel could hold in pieces (5 MiB), shallower
+    huge_w, huge_r = "{3, 65536, 65537, 5242880}", "{3, 200000}"
+    ops, ops_huge = ctx.pick((5, 3), (6, 4))
+    _, beh = ctx.tlc_gen("util", "PipeConnsGen", "PipeConnsGen.cfg", workers=4, timeout=1500,
+                         consts={"OPS": ops, "WSIZES": small, "RSIZES": small, "PRINTALL": "TRUE"})
+    _, beh2 = ctx.tlc_gen("util", "PipeConnsGen", "PipeConnsGen.cfg", workers=4, timeout=1500,
+                          consts={"OPS": ops_huge, "WSIZES": huge_w, "RSIZES": huge_r, "PRINTALL": "TRUE"})
+    if not beh or not beh2:
         raise Infra("PipeConnsGen produced no behaviours")
+    beh += beh2
     nex = len(beh)
+    sizes = "%s; %s/%s within %d calls" % (small, huge_w, huge_r, ops_huge)
     if not ctx.quick:
-        _, sim = ctx.tlc_gen("util", "PipeConnsGen", "PipeConnsGen.cfg",
-                             consts={"OPS": 14, "SIZES": "{0, 1, 3, 1024, 2000}", "PRINTALL": "FALSE"}, workers=1,
+        _, sim = ctx.tlc_gen("util", "PipeConnsGen", "PipeConnsGen.cfg", workers=1,
+                             consts={"OPS": 14, "WSIZES": "{0, 1, 3, 1024, 2000, 65537}", "RSIZES": "{0, 1, 3, 1024, 2000, 100000}", "PRINTALL": "FALSE"},
                              timeout=900, simulate="num=4000", depth=200, args=["-seed", str(ctx.seed)])
         beh += sim
     p = os.path.join(ctx.scratch, "c33_beh.ndjson")
